@@ -141,7 +141,7 @@ def run_case(ctx, case):
     return None
 
 
-TINY_FNS = ['sin', 'cos', 'sinh', 'cosh', 'exp', 'expm1', 'log1p', 'arctan', 'arcsinh', 'arcsin', 'erf', 'erfi', 'square', 'negative', 'exp2']
+TINY_FNS = ['sin', 'cos', 'sinh', 'cosh', 'exp', 'expm1', 'log1p', 'arctan', 'arcsinh', 'arcsin', 'arctanh', 'erf', 'erfi', 'square', 'negative', 'exp2']
 SCALED_FNS = ['sqrt', 'log', 'log2', 'log10', 'log1p', 'reciprocal']
 
 
